@@ -22,6 +22,8 @@ def hook(ev, args):
         events.append(["system", os.fsdecode(args[0])])
     elif ev == "os.remove":
         events.append(["remove", os.fsdecode(args[0])])
+    elif ev == "os.rename":                      # os.rename / os.replace / shutil.move
+        events.append(["rename", os.fsdecode(args[0]), os.fsdecode(args[1])])
 
 
 sys.addaudithook(hook)
